@@ -10,7 +10,9 @@
 
 mod alloc;
 mod common;
+mod c18b;
 mod sim;
+mod world;
 
 use std::{collections::BTreeSet, path::PathBuf};
 
@@ -45,6 +47,9 @@ macro_rules! properties {
 }
 
 properties! {
+    "C01" => c01,
+    "C02" => c02,
+    "C03" => c03,
     "C04" => c04,
     "C07" => c07,
     "C08" => c08,
